@@ -13,6 +13,7 @@ import (
 func init() { register("C04", true, checkC04) }
 
 func checkC04(c *Ctx) {
+	e1CheckConstants(c, "C04-K6", []string{"dhcpv4.", "iana.Arch", "iana.HWType"}, 200)
 	r := c.R
 	r.Decides = append(r.Decides,
 		"K1 dhcpv4.FromBytes returns a packet only if the Lexer error is nil after the last header read (every header read dominates the test), the cookie equals the magic constant and option parsing returned nil",
